@@ -187,7 +187,7 @@ PKG_SOURCES = {
 def _limit_memory():
     # a CBMC run that needs more than this is a tool limit (UNDECIDED), not something to take the machine down with
     import resource
-    gb = int(os.environ.get('VERIF_MEM_GB', '24'))
+    gb = int(os.environ.get('VERIF_MEM_GB', '16'))
     resource.setrlimit(resource.RLIMIT_AS, (gb << 30, gb << 30))
 
 
